@@ -86,7 +86,14 @@ let () =
   reg "c20.cell_name_to_coords" (fun a -> match a with
     | [s] -> show_res (fun (c, r) -> string_of_z c ^ " " ^ string_of_z r) (cell_name_to_coords (bytes_of_hex s)) | _ -> "bad-args");
   reg "c20.coords_to_cell_name" (fun a -> match a with
-    | [c; r; ab] -> show_res hex_of_bytes (coords_to_cell_name (z_of_string c) (z_of_string r) (bool_of_arg ab)) | _ -> "bad-args")
+    | [c; r; ab] -> show_res hex_of_bytes (coords_to_cell_name (z_of_string c) (z_of_string r) (bool_of_arg ab)) | _ -> "bad-args");
+  reg "c20.range_ref_to_coords" (fun a -> match a with
+    | [s] -> show_res (fun (((c1, r1), c2), r2) -> String.concat " " (List.map string_of_z [c1; r1; c2; r2])) (range_ref_to_coords (bytes_of_hex s)) | _ -> "bad-args");
+  reg "c20.coords_to_range_ref" (fun a -> match a with
+    | [c1; r1; c2; r2; ab] -> show_res hex_of_bytes (coords_to_range_ref (((z_of_string c1, z_of_string r1), z_of_string c2), z_of_string r2) (bool_of_arg ab)) | _ -> "bad-args");
+  reg "c20.sort_coords" (fun a -> match a with
+    | [c1; r1; c2; r2] -> let (((a1, b1), a2), b2) = sort_coords (((z_of_string c1, z_of_string r1), z_of_string c2), z_of_string r2) in
+      String.concat " " (List.map string_of_z [a1; b1; a2; b2]) | _ -> "bad-args")
 
 
 (* floats cross the boundary as 16 hex digits (IEEE-754 bits) *)
